@@ -86,5 +86,11 @@ CHECKS = {
                 text="Held on the generated filters and cards: the REPORT returned exactly the cards the oracle accepts for every match type, collation, negation, param-filter and "
                      "anyof/allof combination (ASCII and non-ASCII values), never more than nresults responses, address-data equal to the stored card, and never a 5xx.",
                 note="Trusted: vf/cardoracle.py and vf/icl.py; only unstructured text properties in text-match cases; unicode case folding modelled by str.casefold()."),
+    "C10": dict(level="exploration", design="DESIGN.md section 4 C10",
+                technique="runtime monitoring: differential monitor - every REPORT answer of a server with query history (index thresholds 0/1/5/50, interleaved writes) is compared with the naive evaluation of the same filter by a cold store object on the same repository state; a recording wrapper proves that the index path answered",
+                text="Held on the recorded query/write sequences except for five recorded known findings (TZID values and periods lose information in the index, several components of one "
+                     "object are flattened, param index keys cannot be extracted, top-level non-VCALENDAR filters): for all other filters and contents the answer after any number of "
+                     "repetitions, index resets and interleaved writes equalled the naive evaluation on a cold store.",
+                note="Trusted: the naive evaluation path of the same code as reference (RFC conformance is C11); wrapper-based attribution of answers to the index path (WSGI shards)."),
 }
 NOT_APPLICABLE = {}
